@@ -26,25 +26,38 @@ type Failure struct {
 	Class  string      `json:"class"`  // narrow mechanism classifier (matched against KNOWN_FINDINGS.json)
 	What   string      `json:"what"`   // human-readable
 	Replay interface{} `json:"replay"` // concrete input, enough to re-run
+	// ReplayHash identifies the replay object (hash of its JSON); entries beyond the first 200
+	// keep only case, class and this hash
+	ReplayHash string `json:"replay_hash,omitempty"`
+}
+
+func hashOf(v interface{}) string {
+	data, err := json.Marshal(v)
+	if err != nil {
+		return ""
+	}
+	h := sha256.Sum256(data)
+	return hex.EncodeToString(h[:8])
 }
 
 // Result is what a driver hands back to ./check.
 type Result struct {
-	Property      string                 `json:"property"`
-	Tier          string                 `json:"tier"`
-	Seed          int64                  `json:"seed"`
-	Evaluations   int                    `json:"evaluations"`
-	Distinct      int                    `json:"distinct_nontrivial"`
-	Rule          string                 `json:"rule"`
-	Samples       []interface{}          `json:"samples"`
-	Distribution  map[string]int         `json:"distribution"`
-	Failures      []Failure              `json:"failures"`
-	CasesV        []string               `json:"cases_v"` // files for the in-kernel correspondence
-	ModelCases    int                    `json:"model_cases"`
-	Exhaustive    bool                   `json:"exhaustive"`
-	Notes         []string               `json:"notes"`
-	Extra         map[string]interface{} `json:"extra,omitempty"`
-	distinctSeen  map[string]bool
+	Property     string                 `json:"property"`
+	Tier         string                 `json:"tier"`
+	Seed         int64                  `json:"seed"`
+	Evaluations  int                    `json:"evaluations"`
+	Distinct     int                    `json:"distinct_nontrivial"`
+	Rule         string                 `json:"rule"`
+	Samples      []interface{}          `json:"samples"`
+	Distribution map[string]int         `json:"distribution"`
+	Failures     []Failure              `json:"failures"`
+	CasesV       []string               `json:"cases_v"` // files for the in-kernel correspondence
+	ModelCases   int                    `json:"model_cases"`
+	Exhaustive   bool                   `json:"exhaustive"`
+	Notes        []string               `json:"notes"`
+	Extra        map[string]interface{} `json:"extra,omitempty"`
+	distinctSeen map[string]bool
+	perClass     map[string]int
 }
 
 func NewResult(prop, tier string, seed int64) *Result {
@@ -77,12 +90,29 @@ func (r *Result) Sample(v interface{}) {
 }
 
 func (r *Result) Fail(f Failure) {
-	if len(r.Failures) < 200 {
+	f.ReplayHash = hashOf(f.Replay)
+	if r.perClass == nil {
+		r.perClass = map[string]int{}
+	}
+	r.perClass[f.Class]++
+	switch {
+	case r.perClass[f.Class] <= 12:
+		// full entries for the first failures of EVERY class
 		r.Failures = append(r.Failures, f)
+	case len(r.Failures) < 50000:
+		// light entry: enough to classify a kernel-side verdict on the same case
+		r.Failures = append(r.Failures, Failure{Case: f.Case, Class: f.Class, ReplayHash: f.ReplayHash})
 	}
 }
 
 func (r *Result) Write(path string) error {
+	if ci, ok := r.Extra["case_index"].(map[string]interface{}); ok {
+		hashes := map[string]string{}
+		for k, v := range ci {
+			hashes[k] = hashOf(v)
+		}
+		r.Extra["case_hash"] = hashes
+	}
 	data, err := json.MarshalIndent(r, "", " ")
 	if err != nil {
 		return err
@@ -118,12 +148,12 @@ type Program struct {
 
 // Outcome of running the real generator.
 type Outcome struct {
-	Files    map[string][]byte
-	Err      error
-	Panicked bool
-	PanicVal string
+	Files     map[string][]byte
+	Err       error
+	Panicked  bool
+	PanicVal  string
 	PanicSite string // first genqlient function on the panicking stack
-	TimedOut bool
+	TimedOut  bool
 }
 
 var siteRe = regexp.MustCompile(`github\.com/Khan/genqlient/generate\.(?:\(\*?\w+\)\.)?(\w+)`)
